@@ -75,7 +75,11 @@ func c02Gen(class string, seed uint64, tier string) *vfScenario {
 			name = "big"
 		}
 		sc.Ops = vfGenProgram(rng, int(sc.Cfg["kind"]), rng.IntN(6))
-		big := []vfOp{{K: "open", P: name, A: 1, H: 900}}
+		big := []vfOp{{K: "open", P: name, A: 1 | 2, H: 900}}
+		if rng.IntN(2) == 0 {
+			// a WRITE whose frame is as long as a frame may be (262144 bytes), or a few bytes shorter or longer
+			big = append(big, vfOp{K: "write", H: 900, Off: int64(rng.IntN(3)), N: 262144 - 22 - rng.IntN(6) + rng.IntN(3), B: int64(rng.IntN(100))})
+		}
 		for i, k := 0, 1+rng.IntN(4); i < k; i++ {
 			big = append(big, vfOp{K: "read", H: 900, Off: int64(rng.IntN(3)), N: 262130 + rng.IntN(16)})
 			if rng.IntN(3) == 0 {
@@ -87,6 +91,10 @@ func c02Gen(class string, seed uint64, tier string) *vfScenario {
 	}
 	if rng.IntN(5) == 0 {
 		sc.Cfg["window"] = int64(1 + rng.IntN(9))
+	}
+	if rng.IntN(5) == 0 {
+		// a client that repeats request ids: the servers' own order ids, not the client's, decide what is answered when
+		sc.Cfg["dupids"] = int64(2 + rng.IntN(3))
 	}
 	return sc
 }
@@ -114,7 +122,19 @@ func c02CheckReplies(r *vfRun, wc *vfWireClient, complete bool) {
 			return
 		}
 	}
-	if complete && len(wc.replies) != len(wc.reqs) {
+	// a frame longer than the servers accept (256 KiB) is not a request they receive: the session ends there
+	expect := len(wc.reqs)
+	for i, q := range wc.reqs {
+		if len(q.encode())-4 > 256*1024 {
+			expect = i
+			break
+		}
+	}
+	if len(wc.replies) > expect {
+		r.fail("C02/extra-reply", "overlong", "request %d is a frame of more than 256 KiB, yet %d replies were emitted", expect, len(wc.replies))
+		return
+	}
+	if complete && len(wc.replies) != expect {
 		missing := wc.reqs[len(wc.replies)]
 		r.fail("C02/missing-reply", "count", "%d requests were delivered but only %d replies were emitted when the server went idle; first unanswered: %v", len(wc.reqs), len(wc.replies), missing)
 	}
